@@ -10,7 +10,34 @@ import (
 
 // C06 — list-then-watch reconstructs the store. Pure cross-check of observables.
 
+// genC06Takeover: list on the old node, a few more writes, a cold node takes over at the revision
+// reached, the client resumes its watch from R+1 there and lists again later.
+func genC06Takeover(r *rt.Rand) *world.Scenario {
+	sc := &world.Scenario{Prefix: prefix, InitRev: pickInitRev(r), Seed: r.Uint64(), Engine: "memkv", Class: "list-then-watch-across-a-takeover"}
+	sc.Extra = map[string]int64{"nodes": 2}
+	keys := []string{prefix + "/a", prefix + "/b", prefix + "/pods/ns/p1"}
+	var cl world.Client
+	for i := 0; i < 1+r.Intn(4); i++ {
+		cl.Ops = append(cl.Ops, world.Op{K: "update", Key: keys[r.Intn(len(keys))], Val: fmt.Sprintf("a%d", i), Rev: world.Rev{M: "known"}})
+	}
+	cl.Ops = append(cl.Ops, world.Op{K: "waitcommitted"}, world.Op{K: "list", Key: prefix + "/", End: prefix + "0"})
+	for i := 0; i < r.Intn(3); i++ {
+		cl.Ops = append(cl.Ops, world.Op{K: "update", Key: keys[r.Intn(len(keys))], Val: fmt.Sprintf("b%d", i), Rev: world.Rev{M: "known"}})
+	}
+	cl.Ops = append(cl.Ops, world.Op{K: "waitcommitted"}, world.Op{K: "takeover", Node: 1, W: 0},
+		world.Op{K: "watch", Key: prefix + "/", Rev: world.Rev{M: "listhdrplus", N: 1}, W: 1, Consume: "eager", Node: 1})
+	for i := 0; i < 1+r.Intn(4); i++ {
+		cl.Ops = append(cl.Ops, world.Op{K: "update", Key: keys[r.Intn(len(keys))], Val: fmt.Sprintf("c%d", i), Rev: world.Rev{M: "known"}, Node: 1})
+	}
+	cl.Ops = append(cl.Ops, world.Op{K: "waitcommitted", Node: 1}, world.Op{K: "list", Key: prefix + "/", End: prefix + "0", Node: 1})
+	sc.Clients = []world.Client{cl}
+	return sc
+}
+
 func genC06(r *rt.Rand, tier string, idx int) *world.Scenario {
+	if idx%10 == 8 {
+		return genC06Takeover(r)
+	}
 	sc := &world.Scenario{Prefix: prefix, InitRev: pickInitRev(r), Seed: r.Uint64(), Engine: "memkv", Class: "list-watch-with-writers"}
 	if r.Chance(0.2) {
 		sc.Engine = "badger"
